@@ -42,7 +42,7 @@ TPeer ==
   /\ Ev.a = "Peer"
   /\ Ev.m \in net                            \* causality: made visible by its author before
   /\ IF Applicable(Ev.n, Ev.m)
-       THEN Peer(Ev.n, Ev.m)
+       THEN PeerP(Ev.n, Ev.m, IF Ev.pk \in Vals THEN Ev.pk ELSE (IF Ev.m.t = "V" THEN Ev.m.by ELSE Ev.n))
        ELSE UNCHANGED vars                   \* other height / own vote echoed: the handler ignores it
   /\ Matches(node'[Ev.n], Ev.post)
   /\ Book /\ UNCHANGED used
